@@ -109,3 +109,45 @@ func zzAckOnlyFromProtectedRecord() {
 	}
 	zzsymCover("protected_ack_accepted")
 }
+
+// The same for a record in the DTLS 1.2 framing that merely CLAIMS a protected epoch (1..3) on a DTLS 1.3 connection
+// whose cipher suite is one of the three REAL DTLS 1.3 suites: DTLS 1.3 protects records only in the unified-header
+// framing, so this one cannot have been authenticated and its ACK (or handshake message) must not reach the state
+// machines - otherwise anybody could acknowledge our KeyUpdate by writing "epoch 3" into a cleartext header. The
+// suites' legacy Decrypt entry point is the only guard on that path.
+//
+//symgo:entry covers=legacy_framed_ack_ignored
+func zzLegacyFramedAckOn13Ignored() {
+	st := dtlsstate.NewState13(zzsymChoice("client", 2) == 1)
+	c := &Conn{
+		state:                  &st,
+		fragmentBuffer:         dtlsfragmentbuffer.New(),
+		handshakeCache:         dtlsflight.NewCache(),
+		decrypted:              make(chan any, 4),
+		log:                    zzLog20{},
+		closed:                 closer.NewCloser(),
+		replayProtectionWindow: 64,
+		rAddr:                  &net.UDPAddr{Port: 1},
+	}
+	st.LocalVersion = protocol.Version1_3
+	st.CipherSuite = defaultCipherSuites13()[zzsymChoice("suite13", 3)]
+	st.TrafficKeys.Install(nil, &dtlsstate.TrafficGeneration{Epoch: 3, Protection: &zzProtAck20{}})
+	st.SetRemoteEpoch(3)
+	n := zzsymChoice("record_numbers", zzsymParam("NACKREC")+1)
+	body := zzAckBody(n)
+	ct := []protocol.ContentType{protocol.ContentTypeACK, protocol.ContentTypeHandshake}[zzsymChoice("content_type", 2)]
+	if ct == protocol.ContentTypeHandshake {
+		body = zzsymBytes("handshake", 17) // header + 5 body bytes (a KeyUpdate is 12 + 1)
+	}
+	seq := zzsymU64("seq")
+	zzsymAssume(seq <= recordlayer.MaxSequenceNumber)
+	h := recordlayer.Header{ContentType: ct, Version: protocol.Version1_2, Epoch: uint16(1 + zzsymChoice("epoch", 3)), SequenceNumber: seq, ContentLen: uint16(len(body))}
+	raw, herr := h.Marshal()
+	zzsymAssert(herr == nil, "harness_header")
+	raw[1], raw[2] = zzsymU8("version_major"), zzsymU8("version_minor")
+	out, err := c.handleIncomingPacket(context.Background(), append(raw, body...), &net.UDPAddr{Port: 1}, nil)
+	zzsymAssert(out.receivedACK == nil, "ack_in_legacy_framed_record_is_not_acted_on")
+	zzsymAssert(!out.containsHandshake, "handshake_in_legacy_framed_record_is_not_acted_on")
+	zzsymAssert(out.responseAlert == nil && err == nil, "legacy_framed_record_is_silently_dropped")
+	zzsymCover("legacy_framed_ack_ignored")
+}
